@@ -15,6 +15,7 @@ import (
 	"reservoir/proxy/certs"
 	"reservoir/proxy/headers"
 	"reservoir/proxy/responder"
+	"reservoir/utils/assertedpath"
 	"reservoir/utils/httplistener"
 	"reservoir/utils/typeutils"
 	"time"
@@ -68,6 +69,11 @@ func NewProxy(cfg *config.Config, ca certs.CertAuthority, ctx context.Context) (
 	switch cfg.Cache.Type.Read() {
 	case config.CacheTypeFile:
 		cacheDir := cfg.Cache.File.Dir.Read()
+		// The cache asserts its directory and panics when it cannot be had (a regular file in the
+		// way, an impossible name): find that out here, where there is an error to return.
+		if _, err := assertedpath.TryAssertDirectory(cacheDir); err != nil {
+			return nil, fmt.Errorf("cache directory %q cannot be used: %w", cacheDir, err)
+		}
 		c = cache.NewFileCache[cachedRequestInfo](cfg, cacheDir, maxCacheSize, cacheCleanupInterval, shardCount, ctx)
 	case config.CacheTypeMemory:
 		memoryBudget := cfg.Cache.Memory.MemoryBudgetPercent.Read()
